@@ -581,6 +581,12 @@ class EnforcedForest:
             ) and (edge.get("geometry") == kwargs.get("geometry")):
                 return False
 
+        # if the node is being moved to a new parent the
+        # edge from its previous parent no longer exists
+        parent = self.parents.get(v)
+        if parent is not None and parent != u:
+            self.edge_data.pop((parent, v), None)
+
         # store a parent reference for traversal
         self.parents[v] = u
         # store kwargs for edge data keyed with tuple
